@@ -77,6 +77,14 @@ CHECKS = {
    note='known finding: return_all_codes in an updating training step decodes from the already-updated codebooks.',
    technique='Coq proof (reals, induction over layers, generic in the layer quantizer) + regenerated loop dataflow + per-token correspondence evaluated in Coq',
    ref='DESIGN.md section 4 C06'),
+ 'C15': dict(
+   text='Theorems (Coq, axiom-free, all histories of forwards and optimiser steps): on a named store, save (keep the persistent entries) + load into a freshly constructed module reproduces the store exactly whenever every non-persistent entry still has its constructor value; '
+        'that invariant is preserved by every history provided forwards write persistent entries only and every Parameter is persistent; equal stores have equal futures; conversely a written non-persistent entry breaks the round trip. '
+        'Instantiated by computation on the inventories regenerated from the source: codebook state (initted, cluster_size, embed_avg, embed) is persistent, all Parameters are persistent, the non-persistent buffers (zero, _levels, _basis, implicit_codebook, LFQ codebook, scales, LatentQuantize weights) have pinned constructor-only initialisers. '
+        'Tie: inventories + initialisers regenerated and pinned, live registries compared in Coq; 29 module configurations: history -> state_dict -> fresh module / deepcopy / reload-of-reload -> identical outputs, indices and state_dict trajectory over 5 further steps with equal seeds.',
+   note='known finding: a stateful in_place_codebook_optimizer (Adam) keeps its moments outside state_dict. Caller-owned optimisers are the caller\'s to checkpoint. torch state_dict machinery is modelled by persist/rebuild.',
+   technique='Coq proof (named-store round-trip theorems + computation on regenerated inventories) + behavioural round-trip correspondence (bit-exact trajectories)',
+   ref='DESIGN.md section 4 C15'),
  'C12': dict(
    text='Theorems (Coq, axiom-free, all n, cutoff, multiple_of, draws r): the layers that run are exactly the prefix {0..k-1} with k = min(n, round_up(r+1, m)); cutoff < k <= n; m | k or k = n; '
         'dropped layers form a suffix; every admissible k is produced by some in-contract draw; dropout is off when not training / indices supplied / dropout disabled / one layer. '
